@@ -41,7 +41,7 @@ class Variables:
                 assert set_expressions, "SET without values in expression(s) is unexpected."
                 eq = set_expressions[0].this
                 name = eq.this.sql()
-                value = eq.args.get("expression").sql()
+                value = eq.args.get("expression").sql(dialect="snowflake")
                 self._set(name, value)
             else:
                 # Haven't been able to produce this in tests yet due to UNSET being parsed as an Alias expression.
